@@ -32,6 +32,8 @@ inline std::string Keys(Rng & r, int hosts, bool full)
    return p;
 }
 
+// routed Messages also carry the two NODE-AWARE filter kinds (child count, node name): they look at the matched node, not only at its payload
+inline std::string Filter5(Rng & r) {if (r.oneIn(4)) {if (r.oneIn(2)) return std::string("c") + "><=!GL"[r.below(6)] + I(r.below(3)); return "n" + gen::Name(r) + ";";} return gen::Filter(r);}
 inline Plan Gen(uint64_t seed)
 {
    gen::ClauseModeScope clauseMode(seed);
@@ -63,7 +65,7 @@ inline Plan Gen(uint64_t seed)
          // a routed Message: 0 keys = default route or broadcast; 1-3 keys of (possibly) different depths, optional filters, sometimes a forged sender
          std::string s = "route " + I(g.routeSeq++) + " " + (wl.oneIn(4) ? "1" : "0");
          const int nk = wl.oneIn(6) ? 0 : (1 + (int) wl.below(wl.oneIn(3) ? 3 : 2));
-         for (int i=0; i<nk; i++) {std::string key = Keys(wl, hosts, full); if (wl.oneIn(5)) key += "^" + Filter(wl); s += " " + Esc(key);}
+         for (int i=0; i<nk; i++) {std::string key = Keys(wl, hosts, full); if (wl.oneIn(5)) key += "^" + Filter5(wl); s += " " + Esc(key);}
          p.push_back(sendPfx + s);
       }
       else if (k < 80) {std::string s = "routedefault"; const int nk = 1 + (int) wl.below(2); const bool df = wl.oneIn(2); for (int i=0; i<nk; i++) {std::string key = Keys(wl, hosts, false); if (df) key += "^" + Filter(wl); s += " " + Esc(key);} p.push_back(sendPfx + s);}
